@@ -470,6 +470,20 @@ func attachmentBaseForMethod(
 		)
 	}
 
+	if accessedReference == nil {
+		// In the evaluation of destroy events, `base` and `self` are fully entitled,
+		// as the value must be owned. This matches the types the checker assigns to
+		// `base` and `self` in the default arguments of the destroy event,
+		// and the behaviour of the interpreter.
+		entitlementSupportingType, ok := interpreter.MustSemaTypeOfValue(attachment, c).(sema.EntitlementSupportingType)
+		if !ok {
+			panic(errors.NewUnreachableError())
+		}
+		access := entitlementSupportingType.SupportedEntitlements().Access()
+		base, narrowedSelf = interpreter.AttachmentBaseAndSelfValues(c, access, attachment)
+		return
+	}
+
 	base = attachment.GetBaseValue(c, authorizationNeededForFunction)
 	return
 }
